@@ -122,17 +122,36 @@ def item_formula(key, value, native_cidr=False):
     return ("not", f) if negate else f
 
 
-def detection_formula(definition, native_cidr=False):
+def detection_formula(definition, native_cidr=False, item_fn=None):
+    """item_fn(key, value, native_cidr) -> formula lets a caller rewrite single detection items
+    (used by the transformation reference of C12); ("none",) stands for a removed item."""
+    it = item_fn or item_formula
     if isinstance(definition, dict):
-        subs = [item_formula(k, v, native_cidr) for k, v in definition.items()]
+        subs = [it(k, v, native_cidr) for k, v in definition.items()]
         return subs[0] if len(subs) == 1 else ("and", subs)
     if isinstance(definition, list):
         if all(isinstance(x, dict) for x in definition):
-            subs = [detection_formula(x, native_cidr) for x in definition]
+            subs = [detection_formula(x, native_cidr, item_fn) for x in definition]
         else:
-            subs = [item_formula(None, x, native_cidr) for x in definition]
+            # a keyword list is ONE detection item with several values
+            return it(None, definition, native_cidr)
         return subs[0] if len(subs) == 1 else ("or", subs)
-    return item_formula(None, definition, native_cidr)
+    return it(None, definition, native_cidr)
+
+
+def simplify_none(f):
+    """Remove ("none",) sub-formulas: dropped from and/or, not(none) = none; returns ("none",) if nothing is left."""
+    k = f[0]
+    if k == "not":
+        g = simplify_none(f[1])
+        return g if g == ("none",) else ("not", g)
+    if k in ("and", "or"):
+        subs = [simplify_none(a) for a in f[1]]
+        subs = [x for x in subs if x != ("none",)]
+        if not subs:
+            return ("none",)
+        return subs[0] if len(subs) == 1 else (k, subs)
+    return f
 
 
 def _subst(f, env):
@@ -149,9 +168,9 @@ def _subst(f, env):
     raise ValueError(k)
 
 
-def formula_of_rule(doc, native_cidr=False):
+def formula_of_rule(doc, native_cidr=False, item_fn=None):
     det = doc["detection"]
     names = [k for k in det if k != "condition"]
-    env = {n: detection_formula(det[n], native_cidr) for n in names}
+    env = {n: detection_formula(det[n], native_cidr, item_fn) for n in names}
     conds = det["condition"] if isinstance(det["condition"], list) else [det["condition"]]
     return [_subst(C.parse(c, names), env) for c in conds]
